@@ -282,8 +282,15 @@ pub fn check_functions(
         }
         for n in &reach {
             if n.is_return() && !Rc::ptr_eq(n, &exit) {
+                let other_exit = funcs
+                    .iter()
+                    .any(|g| !Rc::ptr_eq(g, f) && Rc::ptr_eq(&g.exit(), n));
                 return Some((
-                    "second-return-not-merged".into(),
+                    if other_exit {
+                        "second-return-not-merged|it-is-the-exit-of-another-function".to_string()
+                    } else {
+                        "second-return-not-merged".to_string()
+                    },
                     format!("{} in function at {}", node_desc(cfg, n), node_desc(cfg, &entry)),
                 ));
             }
@@ -438,8 +445,8 @@ impl Property for C11 {
     fn cases(&self, tier: Tier) -> u64 {
         self.fixed.len() as u64 + self.space(tier).count()
     }
-    fn chunk(&self, _tier: Tier) -> u64 {
-        2000
+    fn chunk(&self, tier: Tier) -> u64 {
+        tier.pick(2000, 500)
     }
     fn run_case(&self, tier: Tier, case: u64, acc: &mut Acc) {
         acc.count("cases", 1);
